@@ -857,6 +857,14 @@ class Interp:
                     return self.call_value(VFunc(o.cls + ".__getitem__", base), [idx], {}, fr, site)
         if isinstance(base, VExc):
             return self.index_items(base.args, idx, fr, site)
+        if isinstance(base, VOpaque) and base.tag == "Filtered":
+            from .calls import filtered_info
+            n, i0, elem_at = filtered_info(self, base)
+            if not (isinstance(idx, VInt) and is_conc(idx.t) and idx.t == 0):
+                raise Unsupported("only [0] of a filtered sequence is defined")
+            if not fr.spec and not self.st.decide(n > 0):
+                self.raise_py("IndexError", "list index out of range", site)
+            return elem_at(i0)
         if isinstance(base, VOpaque) and self.E.contract_of(base.tag + ".__getitem__"):
             return self.call_value(VFunc(base.tag + ".__getitem__", base), [idx], {}, fr, site)
         raise Unsupported("index of %s" % self.type_name(base))
@@ -1080,7 +1088,21 @@ class Interp:
         if len(e.generators) != 1:
             raise Unsupported("nested comprehension")
         g = e.generators[0]
-        it = self.iter_concrete(self.eval(g.iter, fr))
+        src = self.eval(g.iter, fr)
+        if isinstance(src, VOpaque) and src.tag in getattr(self.E, "opaque_iter", {}):
+            # comprehension over an abstract sequence: some sequence of the same kind (a sub-selection / image whose
+            # content is not modelled); the filter and element expressions are assumed effect free
+            if isinstance(g.target, ast.Name) and isinstance(e.elt, ast.Name) and e.elt.id == g.target.id:
+                if not g.ifs:
+                    return src
+                # [x for x in xs if cond(x)] is filter(lambda x: cond(x), xs)
+                body = g.ifs[0] if len(g.ifs) == 1 else ast.BoolOp(op=ast.And(), values=list(g.ifs))
+                lam = ast.Lambda(args=ast.arguments(posonlyargs=[], args=[ast.arg(arg=g.target.id)], vararg=None, kwonlyargs=[],
+                                                    kw_defaults=[], kwarg=None, defaults=[]), body=body)
+                return self.call_value(VFunc("builtins.filter"), [VFunc("<lambda>", None, closure=(lam, fr)), src], {}, fr, "comprehension")
+            self.E.trusted_used.add("comprehension over an abstract sequence yields an unconstrained sequence of the same kind")
+            return VOpaque(src.tag, self.st.fresh_int("comp_id"))
+        it = self.iter_concrete(src)
         sub = Frame(fr.finfo, {}, fr.module, fr.cls)
         sub.closure = fr
         sub.spec = fr.spec
@@ -1261,6 +1283,10 @@ class Interp:
             base.fields[name] = value
             return
         if isinstance(base, VOpaque):
+            c = self.E.contract_of("%s.%s.setter" % (base.tag, name))
+            if c is not None:
+                from . import calls
+                calls.apply_contract(self, c, "%s.%s.setter" % (base.tag, name), [base, value], {}, fr, "setattr(%s)" % name)
             return
         raise Unsupported("attribute store on %s" % self.type_name(base))
 
